@@ -157,67 +157,108 @@ func main() {
 	}
 }
 
-// checkG1 is the entry point of every G1-based property.
+// checkG1 is the entry point of every G1-based property: it runs every search of the property's group.
 func checkG1(prop, tier string) int {
+	specs := g1Groups[prop]
+	if len(specs) == 0 {
+		specs = []string{prop}
+	}
 	t0 := time.Now()
-	st, sp := runG1(prop, tier)
+	g1DeadlineShare = len(specs)
 	findings := loadFindings()
 	pool := NewPool()
-	// confirm every new violation by re-executing it in fresh processes
 	var confirmed []foundViolation
 	unstable := 0
-	for _, fv := range st.Violations {
-		okAll := true
-		n := len(fv.Path)
-		var prefix []string
-		last := "."
-		if n > 0 {
-			prefix, last = fv.Path[:n-1], fv.Path[n-1]
+	agg := &g1Stats{Shapes: map[[5]int]int{}, PerCfg: map[string][2]int{}, Exhaustive: true, Known: map[string]int{}}
+	var cfgNames, notes, caps []string
+	var alphas []any
+	bounds := map[string]any{}
+	var firstSp *G1Spec
+	for _, name := range specs {
+		st, sp := runG1(name, tier)
+		if firstSp == nil {
+			firstSp = sp
 		}
-		ci := 0
-		for i, c := range sp.Configs {
-			if c.String() == fv.Cfg.String() {
-				ci = i
+		// confirm every new violation by re-executing it in fresh processes
+		for _, fv := range st.Violations {
+			okAll := true
+			n := len(fv.Path)
+			var prefix []string
+			last := "."
+			if n > 0 {
+				prefix, last = fv.Path[:n-1], fv.Path[n-1]
 			}
-		}
-		for rep := 0; rep < 4 && okAll; rep++ {
-			r := pool.RunOne(Job{Kind: "g1expand", Data: mustJSON(g1Req{Prop: prop, Tier: tier, Cfg: ci, Path: prefix, Only: last})})
-			if strings.HasPrefix(fv.V.Sig, "crash|") || strings.HasPrefix(fv.V.Sig, "hang|") {
-				okAll = r.Crashed || r.Err != ""
-				continue
-			}
-			var resp g1Resp
-			if r.Crashed || json.Unmarshal(r.Data, &resp) != nil {
-				okAll = false
-				break
-			}
-			found := false
-			for _, s := range resp.Succ {
-				for _, v := range s.Viols {
-					if v.Sig == fv.V.Sig {
-						found = true
-					}
+			ci := 0
+			for i, c := range sp.Configs {
+				if c.String() == fv.Cfg.String() {
+					ci = i
 				}
 			}
-			okAll = found
+			for rep := 0; rep < 4 && okAll; rep++ {
+				r := pool.RunOne(Job{Kind: "g1expand", Data: mustJSON(g1Req{Prop: name, Tier: tier, Cfg: ci, Path: prefix, Only: last})})
+				if strings.HasPrefix(fv.V.Sig, "crash|") || strings.HasPrefix(fv.V.Sig, "hang|") {
+					okAll = r.Crashed || r.Err != ""
+					continue
+				}
+				var resp g1Resp
+				if r.Crashed || json.Unmarshal(r.Data, &resp) != nil {
+					okAll = false
+					break
+				}
+				found := false
+				for _, s := range resp.Succ {
+					for _, v := range s.Viols {
+						if v.Sig == fv.V.Sig {
+							found = true
+						}
+					}
+				}
+				okAll = found
+			}
+			if okAll {
+				confirmed = append(confirmed, fv)
+				p := writeReplay(prop, map[string]any{"property": prop, "engine": "G1", "spec": name, "tier": tier, "config": fv.Cfg, "path": fv.Path,
+					"signature": fv.V.Sig, "message": fv.V.Msg, "batch_alphabet": sp.Alpha})
+				fmt.Printf("VIOLATION property=%s replay=%s\n", prop, p)
+				fmt.Fprintf(os.Stderr, "  cfg=%s path=%v\n  %s\n", fv.Cfg, fv.Path, fv.V.Msg)
+			} else {
+				unstable++
+				fmt.Fprintf(os.Stderr, "UNSTABLE (not reproduced 5/5, not reported as violation): cfg=%s path=%v sig=%s\n", fv.Cfg, fv.Path, fv.V.Sig)
+			}
 		}
-		if okAll {
-			confirmed = append(confirmed, fv)
-		} else {
-			unstable++
-			fmt.Fprintf(os.Stderr, "UNSTABLE (not reproduced 5/5, not reported as violation): cfg=%s path=%v sig=%s\n", fv.Cfg, fv.Path, fv.V.Sig)
+		agg.States += st.States
+		agg.Transitions += st.Transitions
+		agg.Infra += st.Infra
+		agg.KnownPruned += st.KnownPruned
+		agg.Killed += st.Killed
+		agg.Terminals += st.Terminals
+		agg.Skipped += st.Skipped
+		agg.Exhaustive = agg.Exhaustive && st.Exhaustive
+		if st.Cap != "" {
+			caps = append(caps, name+": "+st.Cap)
 		}
+		for k, v := range st.Shapes {
+			agg.Shapes[k] += v
+		}
+		for k, v := range st.PerCfg {
+			agg.PerCfg[name+":"+k] = v
+		}
+		for k, v := range st.Known {
+			agg.Known[k] += v
+		}
+		agg.Samples = append(agg.Samples, st.Samples...)
+		for _, c := range sp.Configs {
+			cfgNames = append(cfgNames, name+":"+c.String())
+		}
+		notes = append(notes, sp.Note)
+		alphas = append(alphas, map[string]any{"spec": name, "batches": sp.Alpha, "steps": append(append([]string{}, sp.Steps...), sp.Devs...)})
+		bounds[name] = map[string]any{"batches": sp.MaxB, "steps_completed": st.Depth, "steps_target": sp.MaxD, "deviations": sp.MaxK, "reopens": sp.MaxR}
 	}
+	st := agg
 	for _, f := range findings {
 		if f.Status == "open" && f.Property == prop && st.Known[f.ID] > 0 {
 			fmt.Printf("KNOWN-FINDING: property=%s %s (%s; %d occurrences in this run)\n", prop, f.What, f.ID, st.Known[f.ID])
 		}
-	}
-	for _, fv := range confirmed {
-		p := writeReplay(prop, map[string]any{"property": prop, "engine": "G1", "tier": tier, "config": fv.Cfg, "path": fv.Path,
-			"signature": fv.V.Sig, "message": fv.V.Msg, "batch_alphabet": sp.Alpha})
-		fmt.Printf("VIOLATION property=%s replay=%s\n", prop, p)
-		fmt.Fprintf(os.Stderr, "  cfg=%s path=%v\n  %s\n", fv.Cfg, fv.Path, fv.V.Msg)
 	}
 	nontrivial := 0
 	for k := range st.Shapes {
@@ -231,27 +272,26 @@ func checkG1(prop, tier string) int {
 			nontrivial++
 		}
 	}
-	cfgNames := []string{}
-	for _, c := range sp.Configs {
-		cfgNames = append(cfgNames, c.String())
-	}
 	if len(st.Samples) == 0 {
 		st.Samples = append(st.Samples, map[string]any{"config": cfgNames[0], "path": []string{}})
+	}
+	if len(st.Samples) > 8 {
+		st.Samples = st.Samples[:8]
 	}
 	ev := &Evidence{PropertyID: prop, Tier: tier, Violations: len(confirmed), WallS: time.Since(t0).Seconds(), Assumptions: commonAssumptions,
 		Coverage: map[string]any{
 			"states":                        st.States,
 			"transitions":                   st.Transitions,
 			"traces_validated_against_impl": st.Transitions,
-			"evaluations":                   st.Transitions + len(sp.Configs),
+			"evaluations":                   st.Transitions + len(cfgNames),
 			"distinct_nontrivial":           nontrivial,
-			"rule": "breadth-first search over step sequences on the real implementation (one search per configuration); a state is distinct by the canonical key of moss's private state at the quiescent point; " +
+			"rule": "breadth-first search over step sequences on the real implementation (one search per configuration); a state is distinct by the canonical key of moss's private state at the quiescent point (plus budgets used); " +
 				"distinct_nontrivial counts distinct (top,mid,base,clean,lower) section-height tuples with at least two non-empty sections; " +
 				"every transition is an execution of the implementation itself (no separate model), hence traces_validated_against_impl = transitions",
 			"samples":                    st.Samples,
 			"exhaustive":                 st.Exhaustive && st.Infra == 0,
-			"cap_hit":                    st.Cap,
-			"bound_completed":            map[string]any{"batches": sp.MaxB, "steps": st.Depth, "steps_target": sp.MaxD, "deviations": sp.MaxK, "reopens": sp.MaxR},
+			"cap_hit":                    strings.Join(caps, "; "),
+			"bound_completed":            bounds,
 			"configurations":             cfgNames,
 			"states_per_config":          st.PerCfg,
 			"section_height_tuples":      shapesList(st.Shapes),
@@ -260,13 +300,14 @@ func checkG1(prop, tier string) int {
 			"infrastructure_errors":      st.Infra,
 			"unstable_violations":        unstable,
 			"threads_killed_at_teardown": st.Killed,
-			"alphabet_batches":           sp.Alpha,
-			"alphabet_steps":             append(append([]string{}, sp.Steps...), sp.Devs...),
-			"note":                       sp.Note,
+			"terminal_phase_runs":        st.Terminals,
+			"alphabets":                  alphas,
+			"note":                       strings.Join(notes, " || "),
 		}}
 	writeEvidence(ev)
 	fmt.Fprintf(os.Stderr, "[%s %s] states=%d transitions=%d shapes=%d violations=%d known=%v infra=%d exhaustive=%v wall=%.1fs\n",
 		prop, tier, st.States, st.Transitions, len(st.Shapes), len(confirmed), st.Known, st.Infra, st.Exhaustive, time.Since(t0).Seconds())
+	_ = firstSp
 	if len(confirmed) > 0 {
 		return 1
 	}
@@ -304,12 +345,16 @@ var replayers = map[string]func(raw []byte) int{
 	"G1": func(raw []byte) int {
 		var r struct {
 			Property string   `json:"property"`
+			Spec     string   `json:"spec"`
 			Tier     string   `json:"tier"`
 			Config   Config   `json:"config"`
 			Path     []string `json:"path"`
 		}
 		json.Unmarshal(raw, &r)
-		sp := g1Specs[r.Property](r.Tier)
+		if r.Spec == "" {
+			r.Spec = r.Property
+		}
+		sp := g1Specs[r.Spec](r.Tier)
 		ci := -1
 		for i, c := range sp.Configs {
 			if c.String() == r.Config.String() {
@@ -325,7 +370,7 @@ var replayers = map[string]func(raw []byte) int{
 		if n > 0 {
 			prefix, last = r.Path[:n-1], r.Path[n-1]
 		}
-		resp := g1Expand(g1Req{Prop: r.Property, Tier: r.Tier, Cfg: ci, Path: prefix, Only: last})
+		resp := g1Expand(g1Req{Prop: r.Spec, Tier: r.Tier, Cfg: ci, Path: prefix, Only: last})
 		rc := 0
 		for _, s := range resp.Succ {
 			for _, v := range s.Viols {
